@@ -14,9 +14,12 @@ a table built by add / compromise / json).  The full statement of the property,
 
 is FALSE of the model (and of the code: the model agrees with the code on every history, linear or not,
 in the correspondence check); it is REFUTED by `alias_witness` and `receiver_witness` below.  What is proved is
-`history_refines`, the same statement under `Linear defs hist`, which excludes exactly the class of the
-finding (reading a table through a handle whose cell was re-weighted through another handle, or
-requesting a default table again after a handle to it was re-weighted).
+`history_refines_partial`, the same statement under `Linear defs hist`.  `Linear` is a decidable, syntactic
+class that CONTAINS every failing history (reading a table through a handle whose cell was re-weighted
+through another handle, or requesting a default table again after a handle to it was re-weighted); it is a
+sufficient condition, not an exact one: `[g 1, w 0 s, w 0 s, o 1]` is not Linear and still satisfies the
+conclusion (the stale cell happens to hold the right value).  Nothing is hidden by that: the driver judges
+non-Linear histories too and tags only those that fail exactly as the heap model predicts.
 -/
 namespace PolyVerif.Props.C08
 open PolyVerif PolyVerif.Codon PolyVerif.CodonTables PolyVerif.Spec.ValueTables
@@ -64,7 +67,7 @@ example : countCodons "atgATGgcnAT".toList "GCN".toList = 1 := by decide
 
 /-- For every Linear history — of ANY length, over any default tables, any combining function —
 what each step shows under the real sharing semantics is what it shows under value semantics. -/
-theorem history_refines {κ : Type} (cmp : Table → Table → κ → Outcome Table) (defs : List (Nat × Table))
+theorem history_refines_partial {κ : Type} (cmp : Table → Table → κ → Outcome Table) (defs : List (Nat × Table))
     (hist : List (Op κ)) (hl : Linear defs hist = true) :
     runHeap cmp defs hist = runValue addTable cmp defs hist :=
   inv_run cmp hist _ _ _ (inv_init defs) hl
@@ -79,7 +82,7 @@ theorem linear_get_pristine {κ : Type} (cmp : Table → Table → κ → Outcom
     (hist : List (Op κ)) (id : Nat) (t : Table) (ht : defs.lookup id = some t)
     (hl : Linear defs (hist ++ [Op.get id]) = true) :
     (runHeap cmp defs (hist ++ [Op.get id])).getLast? = some (Obs.table t) := by
-  rw [history_refines cmp defs _ hl]
+  rw [history_refines_partial cmp defs _ hl]
   simp [runValue, List.foldl_append, vstep, ht, VState.push]
 
 /-- The known finding, kernel-checked: request table 11, re-weight it, request table 11 again — the second
@@ -103,6 +106,13 @@ def h₂ : List (Op Unit) := [Op.get 1, Op.json 0, Op.reweight 1 "ATG".toList, O
 
 theorem receiver_witness : ¬ (runHeap noCmp genDefaults h₂ = runValue addTable noCmp genDefaults h₂) ∧
     Linear genDefaults h₂ = false := by decide
+
+/-- … and no default table is involved: the two semantics differ at step 3 (the look at the JSON copy) and
+agree at the last step (default table 1 requested again: pristine in both) -/
+theorem receiver_witness_steps :
+    (runHeap noCmp genDefaults h₂)[3]? ≠ (runValue addTable noCmp genDefaults h₂)[3]? ∧
+    (runHeap noCmp genDefaults h₂)[4]? = (runValue addTable noCmp genDefaults h₂)[4]? ∧
+    (runHeap noCmp genDefaults h₂)[4]? = (genDefaults.lookup 1).map Obs.table := by decide
 
 /-- which finding a break belongs to is decided by the region it exposes: a default table for `h₀`, `h₁`,
 a built table for `h₂` (`genDefaults.length = 25`) -/
